@@ -71,14 +71,24 @@ inline Tracker T;
 // vh::TrackAlloc's registry).  A release names the block as the releasing instance knows it.
 struct LogAlloc : vh::TrackAlloc {
 	int inst = 0;
+	bool arena = true;                // false once the handle has been moved from (like a moved-from shared arena handle)
 	LogAlloc() = default;
 	explicit LogAlloc(int i) : inst(i) { }
+	LogAlloc(const LogAlloc &) = default;
+	LogAlloc &operator=(const LogAlloc &) = default;
+	LogAlloc(LogAlloc &&o) : inst(o.inst), arena(o.arena) { o.arena = false; }
+	LogAlloc &operator=(LogAlloc &&o) { inst = o.inst; arena = o.arena; if(&o != this) o.arena = false; return *this; }
+	void live_handle(const char *what) {
+		if(!arena) vh::oracle("lifetime", "moved-from-allocator: %s through an allocator handle (instance %d) that has been moved from", what, inst);
+	}
 	void *allocate(size_t n) {
+		live_handle("allocate");
 		void *p;
 		if(T.align > 16) {          // over-aligned element type: an allocator for such a T hands out blocks aligned for T
 			p = ::aligned_alloc(T.align, ((n ? n : 1) + T.align - 1) / T.align * T.align);
 			vh::g_alloc.blocks[p] = n; vh::g_alloc.allocs++;
 		} else p = vh::TrackAlloc::allocate(n);
+		memset(p, 0xA5, n);             // fresh blocks hold junk, never zeroes
 		int raw = T.next_id++;
 		T.blocks[(const char *)p] = {raw, n, inst};
 		if(T.on) { char buf[48]; snprintf(buf, sizeof buf, "A%d:%zu", raw * T.ninst + inst, n); T.ev.push_back(buf); }
@@ -94,10 +104,12 @@ struct LogAlloc : vh::TrackAlloc {
 		int id = it->second.raw * T.ninst + inst; T.blocks.erase(it); return id;
 	}
 	void deallocate(void *p, size_t n) {
+		if(p) live_handle("deallocate");
 		if(p) { int id = forget(p); if(T.on) { char buf[48]; snprintf(buf, sizeof buf, "X%d:%zu", id, n); T.ev.push_back(buf); } }
 		vh::TrackAlloc::deallocate(p, n);
 	}
 	void free(void *p) {
+		if(p) live_handle("free");
 		if(p) { int id = forget(p); if(T.on) { char buf[48]; snprintf(buf, sizeof buf, "F%d", id); T.ev.push_back(buf); } }
 		vh::TrackAlloc::free(p);
 	}
@@ -131,6 +143,36 @@ using TVE = Elem<true>;
 using MOE = Elem<false>;
 using A64 = Elem<true, 64>;       // over-aligned (alignof > alignof(max_align_t)), copy/move observable
 static_assert(alignof(A64) == 64 && sizeof(A64) == 64);
+
+// ---- trivially destructible element with observable copy/move: user-provided copy/move constructors re-point a
+// self pointer, there is NO destructor (a cursor / self-registering handle).  is_trivially_destructible, but not
+// trivially copyable: relocating it with memcpy leaves the self pointer in the old storage.
+struct Cur {
+	uint64_t v;
+	const Cur *self;
+	Cur() : v(0), self(this) { T.born(this); }
+	Cur(uint64_t x) : v(x), self(this) { T.born(this); }
+	Cur(const Cur &o) : v(o.v), self(this) { o.chk("copied from"); T.use(&o, "copy"); T.born(this); }
+	Cur(Cur &&o) : v(o.v), self(this) { o.chk("moved from"); T.use(&o, "move"); T.born(this); }
+	Cur &operator=(const Cur &o) { v = o.v; T.use(this, "assign-to"); T.use(&o, "assign-from"); return *this; }
+	Cur &operator=(Cur &&o) { v = o.v; T.use(this, "assign-to"); T.use(&o, "move-assign-from"); return *this; }
+	void chk(const char *what) const {
+		if(self != this) vh::oracle("relocated-bytewise", "element %s at an address where it was never constructed (its self pointer designates other storage)", what);
+	}
+	uint64_t get() const { T.use(this, "read"); chk("read"); return v; }
+	bool operator==(const Cur &o) const { uint64_t a = get(); uint64_t b = o.get(); return a == b; }
+};
+static_assert(std::is_trivially_destructible_v<Cur> && !std::is_trivially_copyable_v<Cur> && sizeof(Cur) == 16);
+
+// ---- element types whose VALUE-initialisation (T{} / T()) must zero members that default-initialisation leaves alone
+// Vi: not trivially default constructible (member with a user-provided default constructor), implicit default constructor,
+//     scalar/pointer members without initialisers; value = n, invariant p == nullptr
+struct ViTag { uint8_t t; ViTag() : t(7) { } };
+struct Vi { ViTag tag; uint64_t n; void *p; bool operator==(const Vi &o) const { return n == o.n; } };
+static_assert(!std::is_trivially_default_constructible_v<Vi> && std::is_trivially_copyable_v<Vi> && sizeof(Vi) == 24);
+// Pm: trivially default constructible, with a pointer to data member (null is not all-zero bits); value = a, invariant pm == nullptr
+struct Pm { uint64_t a; uint64_t Pm::*pm; bool operator==(const Pm &o) const { return a == o.a; } };
+static_assert(std::is_trivially_default_constructible_v<Pm> && sizeof(Pm) == 16);
 
 // ---- trivially copyable element types whose operator== is not bytewise equality
 // double: code 0 = +0.0, 1 = -0.0, 2 = NaN, 3 = +inf, 4 = -inf, c >= 5 = (double)c
@@ -166,18 +208,28 @@ struct Bag {
 };
 static_assert(sizeof(Bag) == 8);
 
-template<class X> constexpr bool is_plain = std::is_same_v<X, double> || std::is_same_v<X, Pod> || std::is_same_v<X, Bag>;
+template<class X> constexpr bool is_plain = std::is_same_v<X, double> || std::is_same_v<X, Pod> || std::is_same_v<X, Bag> || std::is_same_v<X, Vi> || std::is_same_v<X, Pm>;
+template<class X> constexpr bool is_vinit = std::is_same_v<X, Vi> || std::is_same_v<X, Pm>;
 template<class X> uint64_t val(const X &x) {
 	if constexpr(std::is_same_v<X, uint64_t>) return x;
 	else if constexpr(std::is_same_v<X, double>) return code_of(x);
+	else if constexpr(std::is_same_v<X, Cur>) return x.get();
 	else if constexpr(std::is_same_v<X, Pod>) return (uint64_t)x.key * 4 + x.tag;
 	else if constexpr(std::is_same_v<X, Bag>) return ((uint64_t)x.len << 32) | x.sum;
-	else return x.get();
+	else if constexpr(std::is_same_v<X, Vi>) {
+		if(x.p != nullptr || x.tag.t != 7) vh::oracle("refseq", "element with a pointer member %p / tag %d: std::vector<T>(n) value-initialises (null pointer, constructed tag)", x.p, (int)x.tag.t);
+		return x.n;
+	} else if constexpr(std::is_same_v<X, Pm>) {
+		if(x.pm != nullptr) vh::oracle("refseq", "element whose pointer-to-member is not null: std::vector<T>(n) value-initialises it to null");
+		return x.a;
+	} else return x.get();
 }
 template<class X> X mk(uint64_t c) {
 	if constexpr(std::is_same_v<X, double>) return dbl_of(c);
 	else if constexpr(std::is_same_v<X, Pod>) { Pod p{}; p.tag = (uint8_t)(c % 4); p.key = (uint32_t)(c / 4); return p; }
 	else if constexpr(std::is_same_v<X, Bag>) return Bag::of(c);
+	else if constexpr(std::is_same_v<X, Vi>) { Vi v{}; v.n = c; return v; }
+	else if constexpr(std::is_same_v<X, Pm>) { Pm v{}; v.a = c; return v; }
 	else return X(c);
 }
 template<class X> constexpr bool copyable = std::is_copy_constructible_v<X>;
@@ -187,12 +239,23 @@ template<class X> uint64_t std_emplace_code(uint64_t n, uint64_t x) {
 	std::vector<X> v; v.emplace_back((size_t)n, x); return val(v.back());
 }
 
+// the elements [from, to) of a container were value-initialised: they must equal those of std::vector<T>(n)
+template<class X, class C> void check_value_init(C &c, size_t from, size_t to, const char *what) {
+	if constexpr(is_vinit<X>) {
+		std::vector<X> sv(to);
+		for(size_t i = from; i < to; i++)
+			if(val(c[i]) != val(sv[i]))
+				vh::oracle("refseq", "%s: value-initialised element %zu = %llu, std::vector<T>(n) holds %llu", what, i, (unsigned long long)val(c[i]), (unsigned long long)val(sv[i]));
+	}
+}
+
 // ---- container variables ("registers") in raw storage, so scripts can destroy and re-construct them
 template<class C, int K = 3>
 struct Regs {
 	// K adjacent objects at an address that is aligned for C and for nothing stricter (so that an under-aligned C shows)
 	alignas(256) unsigned char store[K * sizeof(C) + 256];
 	bool alive[K] = {};
+	Regs() { memset(store, 0xA5, sizeof store); }
 	unsigned char *base() { return store + (alignof(C) < 256 ? alignof(C) : 0); }
 	C &operator[](int i) { return *std::launder(reinterpret_cast<C *>(base() + i * sizeof(C))); }
 	void *at(int i) { return base() + i * sizeof(C); }
@@ -279,7 +342,9 @@ static void run_vec(const vh::Lines &ls) {
 			ref[r].pop_back();
 		} else if(o == "resize") {
 			int r = R_(t[1]); size_t n = vh::u64(t[2]);
+			size_t old = ref[r].size();
 			R[r].resize(n); ref[r].resize(n);
+			if(n > old) check_value_init<E>(R[r], old, n, "vector::resize(n)");
 		} else if(o == "resizev") {
 			int r = R_(t[1]); size_t n = vh::u64(t[2]); uint64_t x = vh::u64(t[3]);
 			if constexpr(copyable<E>) { E tmp = mk<E>(x); R[r].resize(n, tmp); } else throw Stop{"badop"};
@@ -405,7 +470,9 @@ static void run_sv(const vh::Lines &ls) {
 			else ref[r].pop_back();
 		} else if(o == "resize") {
 			int r = R_(t[1]); size_t n = vh::u64(t[2]);
+			size_t old = ref[r].size();
 			R[r].resize(n); ref[r].resize(n);
+			if(n > old) check_value_init<E>(R[r], old, n, "small_vector::resize(n)");
 		} else if(o == "resizev") {
 			int r = R_(t[1]); size_t n = vh::u64(t[2]); uint64_t x = vh::u64(t[3]);
 			if constexpr(copyable<E>) { E tmp = mk<E>(x); R[r].resize(n, tmp); } else throw Stop{"badop"};
@@ -491,6 +558,7 @@ static void run_dyn(const vh::Lines &ls) {
 			int r = R_(t[1]); size_t n = vh::u64(t[2]);
 			LogAlloc a = R[r].allocator_; R[r].~C(); R.alive[r] = false; new (R.at(r)) C(n, a); R.alive[r] = true;
 			ref[r].assign(n, 0);
+			check_value_init<E>(R[r], 0, n, "dyn_array(n)");
 		} else if(o == "default") {
 			int r = R_(t[1]);
 			LogAlloc a = R[r].allocator_; R[r].~C(); R.alive[r] = false; new (R.at(r)) C(a); R.alive[r] = true;
@@ -498,7 +566,7 @@ static void run_dyn(const vh::Lines &ls) {
 		} else if(o == "set") {
 			int r = R_(t[1]); size_t i = vh::u64(t[2]); uint64_t x = vh::u64(t[3]);
 			if(i >= ref[r].size()) throw Stop{"ub"};
-			R[r][i] = E(x);
+			R[r][i] = mk<E>(x);
 			ref[r][i] = x;
 		} else if(o == "idx") {
 			int r = R_(t[1]); size_t i = vh::u64(t[2]);
@@ -792,17 +860,17 @@ static void body(const vh::Lines &ls) {
 	auto t = vh::split(ls[0]);
 	std::string cont = t.size() > 1 ? t[1] : "vec", elem = t.size() > 2 ? t[2] : "int";
 	int n = t.size() > 3 ? atoi(t[3].c_str()) : 4;
-	size_t es = (elem == "int" || elem == "dbl" || elem == "pod" || elem == "bag") ? sizeof(uint64_t) : elem == "a64" ? sizeof(A64) : sizeof(TVE);
+	size_t es = (elem == "int" || elem == "dbl" || elem == "pod" || elem == "bag") ? sizeof(uint64_t) : elem == "a64" ? sizeof(A64) : (elem == "cur" || elem == "pm") ? 16 : sizeof(TVE);
 	if(cont == "list") es += sizeof(frg::default_list_hook<int>);
 	printf("hdr %s %s esz=%zu\n", cont.c_str(), elem.c_str(), es);
 	try {
-		if(cont == "vec") { if(elem == "int") run_vec<uint64_t>(ls); else if(elem == "dbl") run_vec<double>(ls); else if(elem == "pod") run_vec<Pod>(ls); else if(elem == "bag") run_vec<Bag>(ls); else if(elem == "a64") run_vec<A64>(ls); else if(elem == "tv") run_vec<TVE>(ls); else run_vec<MOE>(ls); }
+		if(cont == "vec") { if(elem == "int") run_vec<uint64_t>(ls); else if(elem == "dbl") run_vec<double>(ls); else if(elem == "pod") run_vec<Pod>(ls); else if(elem == "bag") run_vec<Bag>(ls); else if(elem == "a64") run_vec<A64>(ls); else if(elem == "cur") run_vec<Cur>(ls); else if(elem == "vi") run_vec<Vi>(ls); else if(elem == "pm") run_vec<Pm>(ls); else if(elem == "tv") run_vec<TVE>(ls); else run_vec<MOE>(ls); }
 		else if(cont == "sv") {
-			if(n == 2) { if(elem == "int") run_sv<uint64_t, 2>(ls); else if(elem == "bag") run_sv<Bag, 2>(ls); else if(elem == "a64") run_sv<A64, 2>(ls); else if(elem == "tv") run_sv<TVE, 2>(ls); else run_sv<MOE, 2>(ls); }
-			else { if(elem == "int") run_sv<uint64_t, 4>(ls); else if(elem == "bag") run_sv<Bag, 4>(ls); else if(elem == "a64") run_sv<A64, 4>(ls); else if(elem == "tv") run_sv<TVE, 4>(ls); else run_sv<MOE, 4>(ls); }
+			if(n == 2) { if(elem == "int") run_sv<uint64_t, 2>(ls); else if(elem == "bag") run_sv<Bag, 2>(ls); else if(elem == "a64") run_sv<A64, 2>(ls); else if(elem == "cur") run_sv<Cur, 2>(ls); else if(elem == "vi") run_sv<Vi, 2>(ls); else if(elem == "pm") run_sv<Pm, 2>(ls); else if(elem == "tv") run_sv<TVE, 2>(ls); else run_sv<MOE, 2>(ls); }
+			else { if(elem == "int") run_sv<uint64_t, 4>(ls); else if(elem == "bag") run_sv<Bag, 4>(ls); else if(elem == "a64") run_sv<A64, 4>(ls); else if(elem == "cur") run_sv<Cur, 4>(ls); else if(elem == "vi") run_sv<Vi, 4>(ls); else if(elem == "pm") run_sv<Pm, 4>(ls); else if(elem == "tv") run_sv<TVE, 4>(ls); else run_sv<MOE, 4>(ls); }
 		}
-		else if(cont == "dyn") { if(elem == "int") run_dyn<uint64_t>(ls); else if(elem == "tv") run_dyn<TVE>(ls); else run_dyn<MOE>(ls); }
-		else if(cont == "stack") { if(elem == "int") run_stack<uint64_t>(ls); else if(elem == "bag") run_stack<Bag>(ls); else if(elem == "tv") run_stack<TVE>(ls); else run_stack<MOE>(ls); }
+		else if(cont == "dyn") { if(elem == "int") run_dyn<uint64_t>(ls); else if(elem == "cur") run_dyn<Cur>(ls); else if(elem == "vi") run_dyn<Vi>(ls); else if(elem == "pm") run_dyn<Pm>(ls); else if(elem == "tv") run_dyn<TVE>(ls); else run_dyn<MOE>(ls); }
+		else if(cont == "stack") { if(elem == "int") run_stack<uint64_t>(ls); else if(elem == "bag") run_stack<Bag>(ls); else if(elem == "cur") run_stack<Cur>(ls); else if(elem == "tv") run_stack<TVE>(ls); else run_stack<MOE>(ls); }
 		else if(cont == "list") { if(elem == "int") run_list<uint64_t>(ls); else if(elem == "bag") run_list<Bag>(ls); else if(elem == "tv") run_list<TVE>(ls); else run_list<MOE>(ls); }
 		else if(cont == "ilist") run_ilist(ls);
 		else printf("badtype\n");
